@@ -17,7 +17,7 @@ pub assume_specification [i32::rem_euclid] (a: i32, b: i32) -> (r: i32) requires
 //@ fn instructions/collect_reward.rs calculate_collect_reward -> r pub
     ensures r.0 as int == min_i(position_reward.amount_owed as int, vault_amount as int), r.0 as int + r.1 as int == position_reward.amount_owed as int, r.0 <= vault_amount,
 //@ end
-//@ fn instructions/v2/collect_reward.rs calculate_collect_reward -> r as=calculate_collect_reward_v2
+//@ fn instructions/v2/collect_reward.rs calculate_collect_reward -> r as=calculate_collect_reward_v2 pub
     ensures r.0 as int == min_i(position_reward.amount_owed as int, vault_amount as int), r.0 as int + r.1 as int == position_reward.amount_owed as int, r.0 <= vault_amount,
 //@ end
 
